@@ -26,6 +26,9 @@ def parseOp (toks : List String) : Option Op :=
   | ["new"] => some .new
   | "add" :: i :: rest => do let e ← parseElt rest; some (.add i.toNat! e)
   | "addraw" :: i :: rest => do let e ← parseElt rest; some (.addRaw i.toNat! e)
+  | "addlines" :: i :: rest =>
+    let lines := (splitAt "|" rest).filter (· ≠ [])
+    do let es ← lines.mapM parseElt; some (.addLines i.toNat! es)
   | ["remove", i, nm] => some (.remove i.toNat! nm)
   | ["query", i, q] => some (.query i.toNat! q)
   | "derive" :: i :: pre :: rest =>
@@ -100,7 +103,7 @@ def handle (toks : List String) : Option String :=
   | ["c16.cfg"] => some <|
       let unc := (cfg.memoised.filter (fun p => !cfg.isCleared p.1)).map (·.1)
       let j (l : List String) := if l.isEmpty then "-" else ",".intercalate l
-      s!"uncleared={j unc} add={cfg.addInvalidates} remove={cfg.removeInvalidates} init={cfg.initInvalidates} detach={cfg.overrideDetaches} hashsites={Gen.Caches.hashOrderSites.length} full={cfgOKb cfg (fun _ => true) && cfg.overrideDetaches} partial={cfgOKb cfg (Gexcl cfg knownUncleared)}"
+      s!"uncleared={j unc} add={cfg.addInvalidates} addmulti={cfg.addMultiInvalidates} remove={cfg.removeInvalidates} init={cfg.initInvalidates} detach={cfg.overrideDetaches} hashsites={Gen.Caches.hashOrderSites.length} full={cfgOKb cfg (fun _ => true) && cfg.overrideDetaches} partial={cfgOKb cfg (Gexcl cfg knownUncleared)}"
   | ["c16.covered", q] => some <|
       if (cfg.reads.lookup q).isNone then "unknown-query"
       else toString ((cfg.readsOf q).all (Gexcl cfg knownUncleared))
